@@ -4,6 +4,17 @@
   directly (no symbolic link) from the working directory (`s.cwd = []`), no fault scheduled.
   Used by the driver-level C01 / C15 theorems (wip/C01Driver.lean); meant to be used as `simp only` rewrite rules
   (side conditions about the current state are closed by the simp discharger after projection reduction).
+
+  * tree: `absPath_nil`, `Fs.set_set`, `dirExists_parent_of_noSlash`, `readFile_root`, `apply_creat_file`,
+    `apply_write_file`, `apply_creat_noParent`;
+  * helper calls: `run_fsIsRegular`, `run_fsGetPerms`, `run_fsExists_file`, `run_fsIsRegular_file`, `run_createTemp`,
+    `run_fixPermissions_writable`, `run_parseBodyM_true/_false`, `run_writeFile_existing` (`writeOps`),
+    `run_permissionCallback_old`, `run_writePatchedResult_plain` (`resultOps`);
+  * one section: `PlainSection` (hypotheses, the applier's verdict included), `SectionDone` (what is left behind),
+    `processSection_clean` (real run), `processSection_clean_dry` (--dry-run), `processSection_clean_noParent`
+    (the parent-directory side condition of the real run is necessary); tactic `section_run [extra simp lemmas]`:
+    the symbolic run of `processSection` by `simp only` with pre-order (`↓`) rewriting, so that each `>>=` is run
+    before its continuation is looked at and dead branches are never visited.
 -/
 import PatchModel.Model.Driver
 import PatchModel.Lemmas.DriverFacts
@@ -141,18 +152,26 @@ theorem run_permissionCallback_old {s : DState} {p b : Bytes} {m0 : Nat} (m : Na
 /-- the operations of the immediate (non-git) write of a patched result -/
 def resultOps (p content : Bytes) (m : Nat) : List FsOp := writeOps p content ++ [.chmod p m]
 
-/-- `write_patched_result_to_file` for a non-git "change" patch without a mode line over an existing regular file:
-    the file gets the new content and keeps (is set back to) the mode remembered in `perm` -/
-theorem run_writePatchedResult_plain {s : DState} {p b : Bytes} {m0 : Nat} (pt : Patch) (content : Bytes) (m : Nat)
+/-- `make_writable` for a target that was writable already: nothing happens -/
+theorem run_makeWritable_noFix {perm : PermResult} (hnf : perm.needFix = false) (p : Bytes) (s : DState) :
+    (makeWritable perm p).run s = (.ok (), s) := by
+  unfold makeWritable; rw [hnf]; rfl
+
+/-- `write_patched_result_to_file` for a non-git "change" patch without a mode line over an existing, writable regular file,
+    no backup asked for: no `chmod` before the write (`make_writable` has nothing to do), the file gets the new content and
+    keeps (is set back to) the mode remembered in `perm` -/
+theorem run_writePatchedResult_plain {s : DState} {p b : Bytes} {m0 : Nat} (o : Options) (pt : Patch) (content : Bytes) (m : Nat)
     (perm : PermResult) (hfmt : (pt.format == .git) = false) (hop : (pt.operation == .add) = false)
-    (hnm : pt.newMode = 0) (hperm : perm.oldPerms = some m) (hcwd : s.cwd = [])
+    (hnm : pt.newMode = 0) (hperm : perm.oldPerms = some m) (hnf : perm.needFix = false) (hcwd : s.cwd = [])
     (h : s.fs.lookup p = some (.file b m0)) (hroot : s.fs.isRoot = true)
     (hdir : s.fs.dirExists (parentOf p) = true) (hf : s.faultAt = none) :
-    (writePatchedResult pt p perm content).run s =
+    (writePatchedResult o pt p perm false content).run s =
       (.ok (), { s with fs := s.fs.set p (.file content m), trace := s.trace ++ resultOps p content m,
                         opCount := s.opCount + (resultOps p content m).length }) := by
   unfold writePatchedResult
   simp only [hfmt, hop, Bool.false_eq_true, if_false, Bool.false_and, hnm]
+  rw [run_bind, run_makeWritable_noFix hnf]
+  simp only []
   rw [run_bind, run_writeFile_existing content hcwd h hroot hdir hf]
   simp only []
   rw [run_permissionCallback_old m perm hperm (by exact hcwd) (Fs.lookup_set_self _ _ _) (by exact hf)]
@@ -167,5 +186,147 @@ theorem tty_unconsumed {α β} (t : Option (List α)) (f : α → β) :
   cases t with
   | none => rfl
   | some l => simp
+
+theorem apply_creat_noParent {fs : Fs} {p : Bytes} (hdir : fs.dirExists (parentOf p) = false) :
+    fs.apply (.creat p) = .error .enoent := by
+  simp only [Fs.apply, hdir]; rfl
+
+/-! ### one clean section
+
+`processSection` on its plain path, as a closed form.  The applier's verdict is a hypothesis here (`hap` and the
+facts about `r`): PatchModel.C01.applyPatch_valid provides it for a valid script. -/
+
+/-- what a cleanly applied "change" section leaves behind, apart from the tree and the trace -/
+structure SectionDone (s s' : DState) (p : Bytes) (par2 : Parser) (dry : Bool) : Prop where
+  par : s'.par = par2
+  hadFailure : s'.hadFailure = s.hadFailure
+  dWrites : s'.dWrites = s.dWrites
+  dRemovals : s'.dRemovals = s.dRemovals
+  tty : s'.tty = s.tty
+  out : s'.out = s.out ++ [.file p dry]
+  cwd : s'.cwd = s.cwd
+  faultAt : s'.faultAt = s.faultAt
+  backedUp : s'.backedUp = s.backedUp
+  stdin : s'.stdin = s.stdin
+  stdout : s'.stdout = s.stdout
+  firstPatch : s'.firstPatch = false
+  sections : s'.sections = s.sections ++ [(p, p)]
+
+/-- the hypotheses shared by the real and the dry run of a plain section -/
+structure PlainSection (o : Options) (fmt : Format) (s : DState) (p bytes : Bytes) (m : Nat)
+    (patch0 patch2 : Patch) (info : HeaderInfo) (par1 par2 : Parser) (r : ApplyResult) : Prop where
+  operand : o.fileToPatch = p
+  noOut : o.outFile = []
+  noBackup : o.saveBackup = false
+  pathNe : p ≠ []
+  cwd : s.cwd = []
+  hdr : parseHeader s.par { format := fmt } o.strip = .ok (true, patch0, info, par1)
+  fmt : patch0.format = .unified ∨ patch0.format = .context ∨ patch0.format = .normal
+  op : patch0.operation = .change
+  pre : patch0.prerequisite = []
+  body : parseBody par1 patch0 = .ok (patch2, par2)
+  fmt2 : patch2.format = patch0.format
+  op2 : patch2.operation = .change
+  newMode2 : patch2.newMode = 0
+  file : s.fs.lookup p = some (.file bytes m)
+  writable : m &&& writeMask ≠ 0
+  root : s.fs.isRoot = true
+  noFault : s.faultAt = none
+  apply : applyPatch (splitLines bytes) patch2 (applyOptsOf o)
+      (Option.map (fun l => List.map (fun a => !List.isEmpty a && List.head? a != some 110) l) s.tty) = .ok r
+  failed : r.failed = 0
+  perfect : r.perfect = true
+  skipped : r.skipped = false
+  msgs : r.msgs = []
+  ttyLeft : r.tty = Option.map (fun l => List.map (fun a => !List.isEmpty a && List.head? a != some 110) l) s.tty
+  patch : r.patch = patch2
+
+section
+variable {o : Options} {fmt : Format} {s : DState} {p bytes : Bytes} {m : Nat}
+  {patch0 patch2 : Patch} {info : HeaderInfo} {par1 par2 : Parser} {r : ApplyResult}
+
+/-- the symbolic run of `processSection` on the plain path; `tail` is the simp set for what differs between runs -/
+syntax "section_run " "[" Lean.Parser.Tactic.simpLemma,* "]" : tactic
+set_option hygiene false in
+macro_rules | `(tactic| section_run [$ls,*]) => `(tactic| (
+  have hfu : (patch0.format == Format.unknown) = false := by
+    rcases H.fmt with h | h | h <;> rw [h] <;> rfl
+  have hfg : (patch2.format == Format.git) = false := by
+    rw [H.fmt2]; rcases H.fmt with h | h | h <;> rw [h] <;> rfl
+  have hob : (patch0.operation == Operation.binary) = false := by rw [H.op]; rfl
+  have hor : (patch0.operation == Operation.rename) = false := by rw [H.op]; rfl
+  have hoc : (patch0.operation == Operation.copy) = false := by rw [H.op]; rfl
+  have hoa2 : (patch2.operation == Operation.add) = false := by rw [H.op2]; rfl
+  have hor2 : (patch2.operation == Operation.rename) = false := by rw [H.op2]; rfl
+  have hoc2 : (patch2.operation == Operation.copy) = false := by rw [H.op2]; rfl
+  have hod2 : (patch2.operation == Operation.delete) = false := by rw [H.op2]; rfl
+  have hpe : List.isEmpty p = false := by
+    cases p with
+    | nil => exact absurd rfl H.pathNe
+    | cons _ _ => rfl
+  have hout : outputPath o patch0 p = p := by
+    unfold outputPath; simp [H.noOut, hor, hoc]
+  have hdash : (o.outFile == [45]) = false := by rw [H.noOut]; rfl
+  unfold processSection
+  simp only [↓run_bind, ↓run_get, ↓run_liftE, ↓run_modify, ↓run_pure, ↓run_emit,
+    H.hdr, hfu, hob, H.operand, hpe, hout, hor, hdash,
+    Bool.false_eq_true, ↓reduceIte, Bool.false_and, Bool.and_false, Bool.not_true, Bool.not_false,
+    Bool.or_false, Bool.false_or, Bool.and_true, Bool.true_and,
+    run_createTemp, H.noFault, H.cwd,
+    run_fsExists_file (b := bytes) (m := m), run_fsIsRegular_file (b := bytes) (m := m), H.file,
+    (fun s' => @run_fixPermissions_writable o s' p bytes m), H.writable, ne_eq, not_false_eq_true,
+    absPath_nil, readFile_root (b := bytes) (m := m), H.root,
+    H.pre, List.isEmpty_nil,
+    run_parseBodyM_true (pt' := patch2) (par' := par2), H.body,
+    H.apply, H.msgs, H.failed, H.perfect, H.skipped, H.patch, H.noBackup, hoa2, hor2, hoc2, hod2,
+    bne_self_eq_false, beq_self_eq_true, H.ttyLeft, hfg, H.newMode2, $ls,*]))
+
+/-- **a clean section, real run**: the target gets the rendered output with its old mode; the parser is where the
+    body parse left it; nothing else in the state moves except the log, the trace and the operation counter -/
+theorem processSection_clean (H : PlainSection o fmt s p bytes m patch0 patch2 info par1 par2 r)
+    (hreal : o.dryRun = false) (hdir : s.fs.dirExists (parentOf p) = true) :
+    ∃ s', (processSection o fmt).run s = (.ok true, s') ∧
+      s'.fs = s.fs.set p (.file (render o.newlineOutput r.out) m) ∧
+      s'.trace = s.trace ++ [.tmpCreate, .tmpUnlink] ++ [.tmpCreate, .tmpUnlink] ++
+        resultOps p (render o.newlineOutput r.out) m ∧
+      SectionDone s s' p par2 false := by
+  section_run [hreal, (fun s' pt c perm => @run_writePatchedResult_plain s' p bytes m o pt c m perm), hdir]
+  refine ⟨_, rfl, rfl, rfl, ⟨rfl, rfl, rfl, rfl, ?_, ?_, H.cwd.symm, H.noFault.symm, rfl, rfl, rfl, rfl, rfl⟩⟩
+  · generalize s.tty = t
+    cases t <;> simp
+  · simp
+
+/-- **a clean section under --dry-run**: the tree and the trace (apart from the two anonymous temporaries) are
+    untouched; the verdict and the position of the parser are those of the real run -/
+theorem processSection_clean_dry (H : PlainSection o fmt s p bytes m patch0 patch2 info par1 par2 r)
+    (hdry : o.dryRun = true) :
+    ∃ s', (processSection o fmt).run s = (.ok true, s') ∧
+      s'.fs = s.fs ∧
+      s'.trace = s.trace ++ [.tmpCreate, .tmpUnlink] ++ [.tmpCreate, .tmpUnlink] ∧
+      SectionDone s s' p par2 true := by
+  section_run [hdry]
+  refine ⟨_, rfl, rfl, rfl, ⟨rfl, rfl, rfl, rfl, ?_, ?_, H.cwd.symm, H.noFault.symm, rfl, rfl, rfl, rfl, rfl⟩⟩
+  · generalize s.tty = t
+    cases t <;> simp
+  · simp
+
+/-- the side condition of `processSection_clean` is needed: when the directory of the target is missing from the
+    tree (an ill-formed tree: the file is there), re-creating the target fails and the section aborts -/
+theorem processSection_clean_noParent (H : PlainSection o fmt s p bytes m patch0 patch2 info par1 par2 r)
+    (hreal : o.dryRun = false) (hdir : s.fs.dirExists (parentOf p) = false) :
+    ∃ s', (processSection o fmt).run s = (.error .systemError, s') ∧ s'.fs = s.fs := by
+  have hW : ∀ (s' : DState) (pt : Patch) (c : Bytes) (perm : PermResult), (pt.format == .git) = false →
+      (pt.operation == .add) = false → s'.cwd = [] → s'.fs.dirExists (parentOf p) = false → s'.faultAt = none →
+      perm.needFix = false →
+      (writePatchedResult o pt p perm false c).run s' = (.error .systemError, { s' with opCount := s'.opCount + 1 }) := by
+    intro s' pt c perm h1 h2 h3 h4 h5 h6
+    unfold writePatchedResult writeFile
+    simp only [h1, h2, Bool.false_eq_true, if_false, Bool.false_and, ↓run_bind, run_makeWritable_noFix h6,
+      run_opCreat, absPath_nil h3, doOp_run, h5, apply_creat_noParent h4]
+    simp
+  section_run [hreal, hW, hdir]
+  exact ⟨_, rfl, rfl⟩
+
+end
 
 end PatchModel.Section
